@@ -190,7 +190,13 @@ func c13Run(t *testing.T, sc Scenario, res *Result) {
 		// appending bytes the property does not consume changes nothing
 		// (when the run was cut short as invalid with every word consumed the input may have been exhausted
 		// inside a retried generator, so nothing can be said)
-		exhausted := overrun || (inv.Left == 0 && inv.Pending != "")
+		ownEnd := inv.Returned || inv.SkipWhy != ""
+		for _, it := range inv.Intents {
+			if (it.Fatal || it.Panic) && !strings.Contains(it.Where, "cleanup") {
+				ownEnd = true // the body stopped itself
+			}
+		}
+		exhausted := overrun || (inv.Left == 0 && !ownEnd)
 		if exhausted && !overrun {
 			res.inc("possibly_exhausted_inside_retry")
 		}
